@@ -268,10 +268,11 @@ func c06table(c *core.Ctx) {
 	}
 }
 
-func c06example(c *core.Ctx) {
-	const R = "C06.example"
+func c06example(c *core.Ctx) { c06exampleAs(c, "C06.example") }
+
+func c06exampleAs(c *core.Ctx, R string) {
 	c.Rule(R, "exampleBuilder.buildExampleForMixedValueNode: the expansion counter processedTypes[name] is tested (> 1 returns without expanding) before it is incremented, the increment is followed immediately by a deferred decrement of the same entry, and both precede the lookup and the recursive Build")
-	c.Floor(R, 1)
+	c.Floor(R, 2)
 	d := c.P.FindDecl("(*notations/jschema.exampleBuilder).buildExampleForMixedValueNode")
 	if d == nil {
 		c.Unresolved(R, "(*notations/jschema.exampleBuilder).buildExampleForMixedValueNode")
@@ -316,6 +317,47 @@ func c06example(c *core.Ctx) {
 	}
 	ok := test.IsValid() && inc.IsValid() && dec.IsValid() && build.IsValid() && test < inc && inc < build && deferAfterInc
 	c.Check(ok, R, "buildExampleForMixedValueNode:counter", c.P.Pos(d.Decl.Pos()), "bounded type expansion: test(>1) < increment < deferred decrement < recursive Build", "the expansion counter is no longer tested/incremented/decremented in this order: Example() of a schema with an optional self-reference does not terminate, or a type used twice is dropped the second time")
+	c06bounded(c, R, d)
+}
+
+// c06bounded: whatever is expanded next has an expansion count below a constant.
+func c06bounded(c *core.Ctx, R string, d *core.DeclSite) {
+	// variables that hold a counter value
+	cnt := map[string]bool{}
+	ast.Inspect(d.Decl.Body, func(n ast.Node) bool {
+		if as, ok := n.(*ast.AssignStmt); ok && len(as.Lhs) == 1 && len(as.Rhs) == 1 && strings.Contains(core.ExprStr(as.Rhs[0]), "processedTypes[") {
+			cnt[core.ExprStr(as.Lhs[0])] = true
+		}
+		return true
+	})
+	isCnt := func(e ast.Expr) bool {
+		s := core.ExprStr(ast.Unparen(e))
+		return cnt[s] || strings.Contains(s, "processedTypes[")
+	}
+	bad := ""
+	n := 0
+	ast.Inspect(d.Decl.Body, func(nd ast.Node) bool {
+		be, ok := nd.(*ast.BinaryExpr)
+		if !ok {
+			return true
+		}
+		switch be.Op {
+		case token.LSS, token.GTR, token.LEQ, token.GEQ, token.EQL, token.NEQ:
+		default:
+			return true
+		}
+		for _, pair := range [][2]ast.Expr{{be.X, be.Y}, {be.Y, be.X}} {
+			if isCnt(pair[0]) {
+				n++
+				if core.ConstOf(d.Pkg, pair[1]) == nil {
+					bad = core.ExprStr(be)
+				}
+			}
+		}
+		return true
+	})
+	c.Check(bad == "" && n >= 2, R, "buildExampleForMixedValueNode:bounded", c.P.Pos(d.Decl.Pos()), core.F("all %d tests of the expansion counter compare it with a constant", n),
+		"the expansion counter is compared with a value that grows with the recursion ("+bad+"): two types that refer to each other raise each other's limit, the descent never stops (stack overflow kills the process)")
 }
 
 // c06alt: at the recursion limit of a choice the other alternatives are tried.
